@@ -159,10 +159,7 @@ func (w *feWalker) RunFrom(cur, prev *ssa.BasicBlock) []*feEnd {
 // inlineHelpers is the standard inlining policy: small first-party functions of
 // the root function's own package, two levels deep.
 func inlineHelpers(root *ssa.Function) func(callee *ssa.Function, depth int) bool {
-	rootPkg := root.Pkg
-	if rootPkg == nil && root.Parent() != nil {
-		rootPkg = root.Parent().Pkg
-	}
+	rootPkg := pkgOfFunc(root)
 	return func(callee *ssa.Function, depth int) bool {
 		if callee == nil || callee.Blocks == nil || depth > 2 || len(callee.Blocks) > 40 {
 			return false
